@@ -512,7 +512,32 @@ func (m *StateMachine) beginRoundLive(
 			"BUG: tsi.GetStepFromVoteSummary must not return tsi.StepAwaitingPrevotes",
 		))
 
-	case tsi.StepAwaitingPrecommits:
+	case tsi.StepPrevoteDelay:
+		// The round we are entering already shows a majority of prevote power
+		// without a majority for one target (we entered late, or we restarted in this round).
+		// As when that happens while we are awaiting a proposal,
+		// the consensus strategy considers the proposed headers we have
+		// and the prevote delay timer runs (started below).
+		if okPHs := m.rejectMismatchedProposedHeaders(initVRV.ProposedHeaders, rlc); len(okPHs) > 0 {
+			req := tsi.ConsiderProposedBlocksRequest{
+				PHs:    okPHs,
+				Result: rlc.PrevoteHashCh,
+			}
+			req.MarkReasonNewHashes(rlc)
+			req.Reason.MajorityVotingPowerPresent = true
+			if !gchan.SendC(
+				ctx, m.log,
+				m.cm.ConsiderProposedBlocksRequests, req,
+				"making consider proposed blocks request from initial state in prevote delay",
+			) {
+				// Context cancelled and logged. Quit.
+				return false
+			}
+		}
+
+	case tsi.StepAwaitingPrecommits, tsi.StepPrecommitDelay:
+		// In precommit delay a majority of precommit power is present without a majority for one target;
+		// we still need to make our own precommit decision, and the precommit delay timer runs (started below).
 		if !gchan.SendC(
 			ctx, m.log,
 			m.cm.DecidePrecommitRequests, tsi.DecidePrecommitRequest{
@@ -560,6 +585,10 @@ func (m *StateMachine) startInitialTimer(ctx context.Context, rlc *tsi.RoundLife
 	switch rlc.S {
 	case tsi.StepAwaitingProposal:
 		rlc.StepTimer, rlc.CancelTimer = m.rt.ProposalTimer(ctx, rlc.H, rlc.R)
+	case tsi.StepPrevoteDelay:
+		rlc.StepTimer, rlc.CancelTimer = m.rt.PrevoteDelayTimer(ctx, rlc.H, rlc.R)
+	case tsi.StepPrecommitDelay:
+		rlc.StepTimer, rlc.CancelTimer = m.rt.PrecommitDelayTimer(ctx, rlc.H, rlc.R)
 	case tsi.StepAwaitingPrevotes, tsi.StepAwaitingPrecommits:
 		// No timer needed in these starting steps.
 	case tsi.StepCommitWait:
